@@ -35,3 +35,6 @@ def run(ck):
     fresh.no_class_state_writes(ck, "C20.R7")
     carriers.machine_carrier(ck, "C18.R5")
     h_, _r = flags.handler_roles(ck, "C04.R1")
+    conv.scaled_value_type(ck, "C17.R8")
+    fresh.no_hidden_state(ck, "C20.R8")                  # results depend on the documented state only (no caches / memos)
+    fresh.constructor_state(ck, "C20.R2")
